@@ -383,9 +383,10 @@ impl ProcfsHandle {
         // resolver, so we have to refuse creation flags here ourselves.
         // O_CREAT on a magic-link would act on whatever the link points to,
         // and O_TMPFILE would create a new inode in that directory.
-        if oflags.intersects(OpenFlags::O_CREAT | OpenFlags::O_EXCL)
-            || oflags.contains(OpenFlags::O_TMPFILE)
-        {
+        // O_TMPFILE is __O_TMPFILE|O_DIRECTORY and O_DIRECTORY may still get
+        // added below (trailing slash), so refuse the __O_TMPFILE bit itself.
+        let o_tmpfile_bit = OpenFlags::from_bits_retain(libc::O_TMPFILE & !libc::O_DIRECTORY);
+        if oflags.intersects(OpenFlags::O_CREAT | OpenFlags::O_EXCL | o_tmpfile_bit) {
             Err(ErrorImpl::InvalidArgument {
                 name: "flags".into(),
                 description: "O_CREAT, O_EXCL and O_TMPFILE are not permitted".into(),
